@@ -330,9 +330,13 @@ def grid_op(draw):
     if op == "leaf":
         d["leaf"] = draw(grid_leaf())
     if op in ("snap", "lc", "avg"):
-        d["members"] = draw(st.lists(st.integers(0, 30), min_size=1, max_size=4))
+        if op == "lc" and draw(st.integers(0, 5)) == 0:
+            d["members"] = draw(st.lists(st.integers(0, 30), min_size=33, max_size=70))      # long lists (pool entries repeated)
+        else:
+            d["members"] = draw(st.lists(st.integers(0, 30), min_size=1, max_size=4))
         d["target"] = draw(st.sampled_from([None, None, [-2.0, 13.0, 16], [0.0, 10.0, 41], [1.0, 5.0, 9], [0.0, 12.0, 7]]))
-        d["coeffs"] = [draw(st.sampled_from([1.0, -1.0, 2.0, 0.5, 0.0, -3.0])) for _ in d["members"]]
+        cs = st.sampled_from([1.0, -1.0, 2.0, 0.5, 0.0, -3.0])
+        d["coeffs"] = [draw(cs) for _ in d["members"]] if len(d["members"]) <= 4 else draw(st.lists(cs, min_size=len(d["members"]), max_size=len(d["members"])))
     return d
 
 
@@ -466,6 +470,8 @@ def run_grid_history(case, ctx):
                 kw = {"start": start, "stop": stop, "num_steps": nn}
             models = [resample_model(m, start, stop, nn) for m in members]
             feats.add("resample")
+            if len(members) > 32:
+                feats.add("many_members")
             if k == "snap":
                 out = ctx.call(snap_pl, objs, **kw)
                 ctx.require(isinstance(out, list) and len(out) == len(objs), "snap_form", lambda: "snap_pl returned %r" % (out,))
